@@ -35,6 +35,21 @@ func vSweepRun(f func(), vals map[string]any) (outcome []string, pruned bool) {
 
 func vNum(i int) json.Number { return json.Number(fmt.Sprint(i)) }
 
+// TestVerifSweepOps runs every choice vector of VerifC07Ops on the real file system.
+func TestVerifSweepOps(t *testing.T) {
+	for op := 0; op < 9; op++ {
+		for leftover := 0; leftover < 3; leftover++ {
+			if leftover > 0 && op != 3 {
+				continue
+			}
+			out, _ := vSweepRun(VerifC07Ops, map[string]any{"op": vNum(op), "leftover": vNum(leftover)})
+			for _, o := range out {
+				t.Errorf("op=%d leftover=%d: %s", op, leftover, o)
+			}
+		}
+	}
+}
+
 func TestVerifSweepC07(t *testing.T) {
 	os.Setenv("VERIF_TIER", "thorough")
 	defer os.Unsetenv("VERIF_TIER")
